@@ -32,6 +32,10 @@ const MALFORMED: &str = "%%cnryMALFORMEDb64%%";
 const BEARER: &str = "cnryBEARERtok4";
 const AUTHZ: &str = "cnryAUTHZval3";
 const COOKIE: &str = "cnryCOOKIEval2";
+// repeated fields: every value of a secret-bearing field is a secret, not only the first one
+const AUTHZ2: &str = "cnryAUTHZtwo4";
+const COOKIE2: &str = "cnryCOOKIEtwo7";
+const PROXY2: &str = "cnryPROXYtwo9";
 const SNI_GOOD: &str = "cnrysnigood1";
 const SNI_BAD: &str = "cnrysnibad8";
 const USER2: &str = "cnryOTHERuser";
@@ -54,6 +58,9 @@ fn needles() -> Vec<(&'static str, String)> {
         ("authorization-value", AUTHZ.to_string()),
         ("authorization-value", b64(AUTHZ)),
         ("cookie-value", COOKIE.to_string()),
+        ("authorization-value:repeated-field", AUTHZ2.to_string()),
+        ("cookie-value:repeated-field", COOKIE2.to_string()),
+        ("proxy-authorization-value:repeated-field", PROXY2.to_string()),
         ("sni-credentials", SNI_GOOD.to_string()),
         ("sni-credentials", SNI_BAD.to_string()),
         ("configured-password", PASS2.to_string()),
@@ -236,6 +243,11 @@ async fn scenario(sc: &Scn) -> Result<&'static str, String> {
     let mut spec = ReqSpec { method: method.into(), target, proxy_auth: proxy_auth(&sc.auth), headers: vec![] };
     spec.headers.push(("Authorization".into(), format!("Digest {AUTHZ}")));
     spec.headers.push(("Cookie".into(), format!("sid={COOKIE}")));
+    spec.headers.push(("Authorization".into(), format!("Digest {AUTHZ2}")));
+    spec.headers.push(("Cookie".into(), format!("sid2={COOKIE2}")));
+    if spec.proxy_auth.is_some() {
+        spec.headers.push(("Proxy-Authorization".into(), format!("Basic {PROXY2}")));
+    }
     match sc.req.as_str() {
         "ping" => spec.headers.push(("x-ping".into(), "1".into())),
         "reverse-proxy-upgrade-in-tunnel" => {
@@ -418,6 +430,11 @@ async fn tls_scenario(which: &str, auth: &str, to_canary: bool) -> Result<&'stat
     let mut spec = ReqSpec::connect(&target).with_auth(proxy_auth(auth));
     spec.headers.push(("Authorization".into(), format!("Digest {AUTHZ}")));
     spec.headers.push(("Cookie".into(), format!("sid={COOKIE}")));
+    spec.headers.push(("Authorization".into(), format!("Digest {AUTHZ2}")));
+    spec.headers.push(("Cookie".into(), format!("sid2={COOKIE2}")));
+    if spec.proxy_auth.is_some() {
+        spec.headers.push(("Proxy-Authorization".into(), format!("Basic {PROXY2}")));
+    }
     let req = spec.h1_bytes();
     let t0 = std::time::Instant::now();
     let mut response: Vec<u8> = vec![];
@@ -493,9 +510,15 @@ async fn quic_scenario(which: &str, auth: &str) -> Result<&'static str, String> 
     if !cl.handshake(Duration::from_secs(3)).await {
         return Ok("no-handshake");
     }
-    let mut headers: Vec<(String, String)> = vec![("authorization".into(), format!("Digest {AUTHZ}")), ("cookie".into(), format!("sid={COOKIE}"))];
+    let mut headers: Vec<(String, String)> = vec![
+        ("authorization".into(), format!("Digest {AUTHZ}")),
+        ("cookie".into(), format!("sid={COOKIE}")),
+        ("authorization".into(), format!("Digest {AUTHZ2}")),
+        ("cookie".into(), format!("sid2={COOKIE2}")),
+    ];
     if let Some(a) = proxy_auth(auth) {
         headers.push(("proxy-authorization".into(), String::from_utf8_lossy(&a).into_owned()));
+        headers.push(("proxy-authorization".into(), format!("Basic {PROXY2}")));
     }
     let mut out = "no-response";
     for (method, authority, path) in [("CONNECT", "_check", None), ("CONNECT", canary_authority.as_str(), None), ("GET", "_udp2", Some("/")), ("CONNECT", "noport.c20.test", None), ("GET", "m.t", Some("/speed/1mb.bim"))] {
